@@ -29,8 +29,9 @@ func init() {
 func c03Cfg() gen.Cfg {
 	cfg := gen.DefaultCfg()
 	cfg.Datetime = true
-	cfg.Keys = []string{"a", "b", "_x", "x1", "é", "key with space", "last", "true", "null", "strict", "to", "exists", "is", "with", "type", "\"q\"", "tab\there", "back\\slash", "C:\\apps", "\\U0001F600x", "\\a", "\U0001F600", "日本", "a.b", "$", "@", "", "1a", " nbsp", "​zw", "\x7f", "\ufffd", "k\ufffd"}
-	cfg.VarNames = []string{"v", "w", "arr", "x_1", "é", "with space", "1", "日本", "a\"b", "\ufffd"}
+	cfg.Keys = []string{"a", "b", "_x", "x1", "é", "key with space", "last", "true", "null", "strict", "to", "exists", "is", "with", "type", "\"q\"", "tab\there", "back\\slash", "C:\\apps", "\\U0001F600x", "\\a", "\U0001F600", "日本", "a.b", "$", "@", "", "1a", " nbsp", "​zw", "\x7f", "\ufffd", "k\ufffd",
+		"cafe\u0301", "a\u203fb", "l\u00b7l", "\u2167", "\u0915\u093e\u092e", "\u0e01\u0e34\u0e19", "x\u0663", "alpha"}
+	cfg.VarNames = []string{"v", "w", "arr", "x_1", "é", "with space", "1", "日本", "a\"b", "\ufffd", "cafe\u0301", "a\u203fb", "\u0e01\u0e34"}
 	cfg.Strs = []string{"a", "ab", "", "x y", "\"", "\\", "\n", "\t\r\b\f\v", "é", "ÿ", "Ā", "퟿", "", "\U0001F600", "\U0010FFFF", "a\x01b", "\x7f", "\u0080", " ", "日本語", "'single'", "/* not a comment */", "\\u0041", "dir\\archive", "x\\U0001F600y\\", "\\\\a\\\\U", "\a\\a", "\ufffd", "x\ufffdy", "\ufffe\uffff", "\ufffd\ufffd"}
 	cfg.Nums = []string{"0", "0.0", "1", "2", "10", "255", "2147483647", "2147483648", "9223372036854775807", "1.5", "2.0", "0.5", "0.001", "1e21", "123456789.125", "1e-7", "1.7976931348623157e308", "5e-324", "100.25", "4.0", "1e3"}
 	return cfg
